@@ -961,7 +961,21 @@ type mutexState struct {
 	locked  bool
 	readers int
 }
-type wgState struct{ n int64 }
+type wgTicket struct{ released bool }
+
+// wgState: the counter plus the waiters. When the counter reaches zero every parked waiter is
+// released; a waiter that resumes after a later Add finds the group "reused before previous Wait has
+// returned" (the run-time panic of sync.WaitGroup).
+type wgState struct {
+	n       int64
+	tickets []*wgTicket
+}
+
+func (w *wgState) releaseAll() {
+	for _, t := range w.tickets {
+		t.released = true
+	}
+}
 
 func (s *Sched) mutex(p *value) *mutexState {
 	if m, ok := s.objs[p].(*mutexState); ok {
